@@ -6,6 +6,7 @@ import (
 	"fmt"
 	"go/token"
 	"go/types"
+	"strings"
 
 	"golang.org/x/tools/go/ssa"
 )
@@ -44,6 +45,12 @@ func (fr *Frame) unop(in *ssa.UnOp) Val {
 		// named + typed
 		nv := fr.nameVal(in, v)
 		fr.typed(nv)
+		if g, ok := in.X.(*ssa.Global); ok && fr.vc.typeName(in.Type()) == "error" {
+			if strings.HasPrefix(g.Name(), "Err") || strings.HasPrefix(g.Name(), "err") || g.Name() == "EOF" {
+				fr.vc.note("package-level error sentinels (Err*/err*/EOF) are non-nil and never reassigned")
+				fr.vc.assume(fr.curR, not(eq(nv.L[0], "0")))
+			}
+		}
 		if x.Loc != nil {
 			if c := fr.cloLoad(x.Loc); c != nil {
 				nv.Clo = c
